@@ -531,3 +531,8 @@ func ParseDiag(s string) (Pos, string, bool) {
 	}
 	return Pos{l, cnum}, rest[j+2:], true
 }
+
+func init() {
+	// comment bodies with a carriage return that is not part of a line end: a line comment ends at the line feed only
+	commentBodies = append(commentBodies, "was:\r<U1 2>", "progress 10%\r20%", "a\rb", "\rS9F9 W .", "x\r\ry", "cr then blank\r ", "\r", "<\r>")
+}
